@@ -801,6 +801,48 @@ def register(E):
         return None
     I['(reflect.Value).Set'] = r_set
 
+    def _conj(cs):
+        if all(type(c) is bool for c in cs):
+            return all(cs)
+        return z3.And(*[z3.BoolVal(c) if type(c) is bool else c for c in cs])
+
+    def _iszero_val(E, tid, x):
+        """reflect.Value.IsZero on a value of type tid (Go 1.23 semantics: floats by `== 0`, so -0.0 IS zero)"""
+        u = E.types[tid].u
+        if u.k == 'basic':
+            if u.name == 'bool':
+                return E.bool_not(x) if hasattr(E, 'bool_not') else (not x if type(x) is bool else z3.Not(x))
+            if u.name == 'string':
+                return len(x) == 0
+            if u.name.startswith('float'):
+                mask = (1 << (u.bits - 1)) - 1
+                v = x.v
+                if type(v) is int:
+                    return (v & mask) == 0
+                return (v & BV(mask, u.bits)) == BV(0, u.bits)
+            if u.bits:
+                return E.cmp_int('==', x, 0, u.bits, u.signed)
+            raise Unsupported('IsZero of basic ' + u.name)
+        if u.k == 'array':
+            xs = x if isinstance(x, (list, tuple)) else None
+            if xs is None:
+                raise Unsupported('IsZero of array representation')
+            return _conj([_iszero_val(E, u.elem, e) for e in xs])
+        if u.k == 'struct':
+            return _conj([_iszero_val(E, f['type'], e) for f, e in zip(u.fields, x) if f['name'] != '_'])
+        if u.k in ('ptr', 'map', 'chan', 'func', 'iface'):
+            return x is None
+        if u.k == 'slice':
+            return x is None or getattr(x, 'obj', 1) is None
+        raise Unsupported('IsZero of kind ' + u.k)
+
+    def r_iszero(E, args):
+        v = args[0]
+        if v.t is None:
+            raise GoPanic('reflect: call of reflect.Value.IsZero on zero Value')
+        return _iszero_val(E, v.t, rv_get(E, v))
+    I['(reflect.Value).IsZero'] = r_iszero
+
     def r_isvalid(E, args):
         return args[0].t is not None
     I['(reflect.Value).IsValid'] = r_isvalid
@@ -936,7 +978,7 @@ def register(E):
         raise Unsupported('ToUpper symbolic')
     I['strings.ToUpper'] = strings_toupper
 
-    def sort_lemma(E, s, less):
+    def sort_lemma(E, s, less, stable=False):
         """C03 (b): the comparator handed to sort.Slice by message.(*ReadWriter).Initialize, evaluated on three field
         descriptors with SYMBOLIC type, index and extension flag (precondition: extension fields are declared after
         every base field): it is a strict total order and coincides with the MAVLink field order. Triples suffice
@@ -986,27 +1028,39 @@ def register(E):
             for b in range(3):
                 c = E.call_value(less, [a, b])
                 L[(a, b)] = c if type(c) is not bool else z3.BoolVal(c)
+        def tie(a, b):
+            return z3.And(z3.Not(L[(a, b)]), z3.Not(L[(b, a)]))
         for a in range(3):
             E.assert_(z3.Not(L[(a, a)]), 'C03/order/irreflexive')
             for b in range(3):
                 if a != b:
                     E.assert_(z3.Not(z3.And(L[(a, b)], L[(b, a)])), 'C03/order/asymmetric')
-                    E.assert_(z3.Or(L[(a, b)], L[(b, a)]), 'C03/order/total')
-                    E.assert_(L[(a, b)] == spec_less(a, b), 'C03/order/is-mavlink-field-order')
+                    if stable:
+                        # a stable sort keeps tied elements in their input (= declaration) order: the comparator has to
+                        # be a strict weak order whose ties, broken by declaration index, give the MAVLink order
+                        E.assert_(z3.Or(L[(a, b)], z3.And(tie(a, b), z3.ULT(ix[a], ix[b]))) == spec_less(a, b),
+                                  'C03/order/is-mavlink-field-order')
+                    else:
+                        # sort.Slice is not stable (pdqsort above 12 elements): every pair has to be ordered
+                        E.assert_(z3.Or(L[(a, b)], L[(b, a)]), 'C03/order/total')
+                        E.assert_(L[(a, b)] == spec_less(a, b), 'C03/order/is-mavlink-field-order')
                     for c2 in range(3):
                         if c2 != a and c2 != b:
                             E.assert_(z3.Implies(z3.And(L[(a, b)], L[(b, c2)]), L[(a, c2)]), 'C03/order/transitive')
+                            if stable:
+                                E.assert_(z3.Implies(z3.And(tie(a, b), tie(b, c2)), tie(a, c2)), 'C03/order/ties-transitive')
         E.stats.reach['C03/order'] = E.stats.reach.get('C03/order', 0) + 1
         raise GoExit()
 
-    def sort_slice(E, args):
-        """sort.Slice: in-place insertion sort driven by the real comparator closure (any correct sort gives the same
-        result when the comparator is a strict weak order that totally orders the elements — C03 lemma)"""
+    def sort_slice(E, args, stable=False):
+        """sort.Slice / sort.SliceStable: in-place (stable) insertion sort driven by the real comparator closure. For the
+        unstable sort.Slice any correct algorithm gives the same result only when the comparator orders every pair —
+        that is what the C03 lemma establishes for the one call site that matters."""
         x, less = args
         s = x.v
         n = s.len
         if E.opt.get('sort_lemma'):
-            return sort_lemma(E, s, less)
+            return sort_lemma(E, s, less, stable)
         for i in range(1, n):
             j = i
             while j > 0:
@@ -1024,7 +1078,7 @@ def register(E):
                 j -= 1
         return None
     I['sort.Slice'] = sort_slice
-    I['sort.SliceStable'] = sort_slice
+    I['sort.SliceStable'] = lambda E, a: sort_slice(E, a, True)
 
     # ---------------------------------------------------------------- time (clock)
     def time_since_ns(E):
